@@ -215,7 +215,10 @@ class KernExporter(object):
                 * symbolic_duration["actual_notes"]
                 / symbolic_duration["normal_notes"]
             )
-            kern_base = str(kern_base)
+            # reciprocal values are written as integers (12 = triplet eighth), "12.0" would read as a dot
+            kern_base = (
+                str(int(kern_base)) if kern_base == int(kern_base) else str(kern_base)
+            )
         return kern_base + dots
 
     def duration_to_kern(self, element: spt.GenericNote) -> str:
